@@ -45,11 +45,14 @@ PROPS = {
         'level': 'proof',
         'kani': False,
         'native': True,
-        'explanation': 'The status machine of next_action is proved equal to the control oracle (DESIGN App. B): StepInto{c} proceeds and decrements / '
-                       'pauses at 0, StepOver proceeds until PC == return address, Finish pauses after a RET/RETS, Continue proceeds; breakpoint, HALT '
-                       'and PC outside user space force a pause before anything else. run_command proves the four resuming commands set exactly the '
-                       'promised status (step into N stores N-1 with N>=1, step stores PC+1) and are refused at HALT; SignificantInstr::try_from is '
-                       'proved equal to the RET/RETS/HALT decoding spec.',
+        'explanation': 'The status machine of next_action is proved equal to the control oracle written from the property (DESIGN App. B): StepInto{c} '
+                       'proceeds and decrements / pauses at 0; StepOver{ret,depth} pauses only at PC == ret with depth 0 and counts calls / returns '
+                       '(depth_after); Finish pauses after the RET/RETS under the CURRENT PC; Continue proceeds; breakpoint, HALT and PC outside user '
+                       'space force a pause before anything else. run_command proves the resuming commands set exactly the promised status (step into N '
+                       'stores N-1 with N>=1; step arms StepOver{PC+1,0} only on JSR/JSRR/CALL and is ONE instruction otherwise) and are refused at HALT; '
+                       'after a command was read, next_action hands back after_resume(last command, machine as it is now). SignificantInstr::try_from '
+                       'and is_call are proved equal to the decoding specs. Whole sessions (every command sequence <= 4 over 11 commands, 4 programs incl. '
+                       'recursion) are compared with an executable reference debugger (bounded).',
         'assumptions': ['`step into` count >= 1 is a guarantee of the command parser (cmd_wf: assumed in Verus, enumerated to a bound by verif_native_command)',
                         'composition with C02 across run-loop iterations: lemma_step_into_counts (compose unit) over the per-iteration contracts; whole sessions only to a bound (verif_native_session_step_counts)'],
     },
@@ -99,8 +102,9 @@ PROPS = {
         'explanation': 'RunEnvironment::from_raw is proved against load_spec (accepted iff non-empty and image[0]+len <= 0x10000; words at the origin, '
                        '0xF025 after the last word, zero elsewhere, PC=orig=image[0], R0-R6=0, R7=0xFDFF, no CC; exit 0xEE otherwise, never an index panic). '
                        'RunEnvironment::run: proved that no instruction is fetched outside [orig,0xFE00), PC+1 cannot overflow, the loop ends only at '
-                       'PC==0xFFFF (or the debugger exit command), exception exits happen exactly when PC leaves user space; each executed step is '
-                       'execute() whose contract is step_spec (C02). trap: PUTS/PUTSP loops proved free of overflow and state-preserving.',
+                       'PC==0xFFFF (or the debugger exit command), exception exits happen exactly when PC leaves user space; every iteration that executes is ONE '
+                       'reference step (verif_ref_execute: the word under the PC is fetched, the PC incremented by one, that word executed; is_ref_step over '
+                       'execute()\'s contract step_spec, C02). trap: PUTS/PUTSP loops proved free of overflow and state-preserving.',
         'assumptions': ['what is printed and what is consumed from stdin is I/O with no contract within reach: those clauses of C03 are NOT decided',
                         'exit statuses are checked as the argument of the modelled exit (R7), not as process behaviour',
                         'slice length <= isize::MAX (type invariant); clone_from_slice behaviour assumed (R13)'],
@@ -154,8 +158,10 @@ PROPS = {
         'level': 'proof',
         'kani': True,
         'native': True,
-        'explanation': 'eval_inner is proved: errors and refused instructions (BR*, RTI, HALT, unknown traps) leave the machine untouched; otherwise the '
-                       'machine does exactly step_spec of the encoding of an allowed statement with resolved labels, numbered pc-orig; the instruction '
+        'explanation': 'eval_inner is proved: errors leave the machine untouched; the text denotes exactly one statement (text_denotes: the tokens of '
+                       'the line, operands per the C01 operand table, trap vector included, nothing after it); if that statement is off-limits (BR*, RTI, '
+                       'HALT, unknown trap) nothing happens, otherwise the machine does exactly step_spec of ITS encoding with the label resolved through '
+                       'the symbol table, numbered pc-orig (R7 of JSR/JSRR/CALL left open, as C15 does); the instruction '
                        'handed to the VM can never take an error exit (never ends the session); composition lemma lemma_eval_label_target proves that '
                        'with this numbering a label operand addresses orig+line-1 — the label\'s own address — at every PC.',
         'assumptions': ['lemma_enc_opcode (opcode bits of the encoding) is assumed in Verus and discharged by the complete Kani harness enc_opcode_complete',
